@@ -195,9 +195,28 @@ def drv_resubmit(seed, gen_kw, nres):
                 ["--no-failed", "--no-missing", "--successful"], ["--failed", "--missing", "--successful"], [],
                 ["--no-failed", "--no-missing"]]
     flag_sets = [allflags[rng.randrange(len(allflags))] for _ in range(nres)]
-    tr = run.run_resubmit(scn, seed, flag_sets)
-    tr["driver"] = ["resubmit", scn, seed, flag_sets]
+    # `resubmit-jobs -s`: the groups' parameters are replaced for the rerun (same names)
+    regroups = [new_group_params(rng, scn) if rng.random() < 0.4 else None for _ in range(nres)]
+    tr = run.run_resubmit(scn, seed, flag_sets, regroups)
+    tr["driver"] = ["resubmit", scn, seed, flag_sets, regroups]
     return tr
+
+
+def new_group_params(rng, scn):
+    if any(g.get("dry") for g in scn["groups"]):
+        return None
+    out = []
+    for g in scn["groups"]:
+        n = dict(g)
+        # (documented rules of the parameters: time-based batching excludes a batch size and needs the number of processes)
+        n["size"] = 0 if g["tb"] else rng.randint(1, max(1, len(scn["jobs"])))
+        n["tryadd"] = rng.random() < 0.5
+        n["procs"] = rng.choice([1, 2, 3] if g["tb"] else [0, 1, 2, 3])
+        n["verbose"] = rng.random() < 0.3
+        if rng.random() < 0.3:
+            n["qos"] = rng.choice(["high", "normal"])
+        out.append(n)
+    return out
 
 
 def all_small_dags(n=3):
@@ -232,9 +251,30 @@ def all_small_dags(n=3):
     return out
 
 
-def drv_resubmit_scn(scn, seed, flag_sets):
-    tr = run.run_resubmit(scn, seed, flag_sets)
-    tr["driver"] = ["resubmit", scn, seed, flag_sets]
+def regroup_tasks(ctx, count):
+    """Submissions in which everything fails once, resubmitted with other batch size / try-add-blocked / processes / options."""
+    rng = random.Random(ctx.seed + 91)
+    tasks = []
+    for i in range(count):
+        n = rng.randint(3, 6)
+        jobs = "ABCDEF"[:n]
+        blk = {j: [k for k in jobs[:x] if rng.random() < 0.3] for x, j in enumerate(jobs)}
+        order = list(jobs)
+        rng.shuffle(order)                       # listing order independent of dependency order
+        g0 = families.G(size=rng.randint(1, n), tryadd=rng.random() < 0.5, procs=rng.choice([1, 2, 3]))
+        scn = families.scn("".join(order), blk={j: blk[j] for j in order}, rc={j: 1 for j in jobs if rng.random() < 0.7},
+                           groups=[g0], maxnodes=rng.choice([0, 1, 2]))
+        scn["rc_by_epoch"] = {"1": {j: 0 for j in jobs}}
+        g1 = dict(g0, size=rng.choice([x for x in range(1, n + 1) if x != g0["size"]] or [1]), tryadd=rng.random() < 0.5,
+                  procs=rng.choice([x for x in (1, 2, 3) if x != g0["procs"]]), verbose=rng.random() < 0.5,
+                  qos=rng.choice(["", "high"]))
+        tasks.append(("resubmit_scn", (scn, ctx.seed * 7 + i, [["--failed", "--missing"] + (["--successful"] if i % 3 == 0 else [])], [[g1]])))
+    return tasks
+
+
+def drv_resubmit_scn(scn, seed, flag_sets, regroups=None):
+    tr = run.run_resubmit(scn, seed, flag_sets, regroups)
+    tr["driver"] = ["resubmit", scn, seed, flag_sets, regroups]
     return tr
 
 
@@ -260,7 +300,10 @@ def small_resubmit_tasks(ctx, count):
         if i % 3 == 2:
             # other exit codes in the rerun: what failed passes, what passed fails
             scn["rc_by_epoch"] = {"1": {j: (0 if scn["rc"].get(j, 0) else 1) for j in "ABC"}}
-        tasks.append(("resubmit_scn", (scn, ctx.seed + i, [fs])))
+        rg = None
+        if i % 4 == 1:
+            rg = [[dict(scn["groups"][0], size=(3 if size == 1 else 1 + i % 2), tryadd=(i % 8 == 1), procs=1 + i % 3)]]
+        tasks.append(("resubmit_scn", (scn, ctx.seed + i, [fs], rg)))
     return tasks
 
 
@@ -443,7 +486,7 @@ class Ctx:
         return res
 
     def impl_model(self, name, scns, maxb=3, maxuser=3, fixed=None, simulate=None, max_replay=400, invariants=None,
-                   timeout=1500, faults=(), maxfaults=0, usercancel=False, eager=False, resub=()):
+                   timeout=1500, faults=(), maxfaults=0, usercancel=False, eager=False, resub=(), maxresub=1):
         """Explore JadeImpl on the given scenarios (exhaustively, or by simulation), then replay the behaviours TLC
         produced into the real code: events predicted by the model vs. events observed (conformance), and the real
         traces are judged by the monitor like any other."""
@@ -460,7 +503,7 @@ class Ctx:
         cfg = ["SPECIFICATION Spec", "CONSTANTS", "  Scns <- ScnSet", f"  MaxB = {maxb}", f"  MaxUser = {maxuser}",
                "  Monitor = TRUE", "  Log = TRUE", "  Fixed = {%s}" % ", ".join(json.dumps(x) for x in sorted(fixed or FIXED)),
                "  FaultKinds = {%s}" % ", ".join(json.dumps(x) for x in faults), f"  MaxFaults = {maxfaults}",
-               "  UserCancels = " + ("TRUE" if usercancel else "FALSE"), "  EagerUser = " + ("TRUE" if eager else "FALSE"), "  ResubFlags <- MCResubFlags",
+               "  UserCancels = " + ("TRUE" if usercancel else "FALSE"), "  EagerUser = " + ("TRUE" if eager else "FALSE"), "  ResubFlags <- MCResubFlags", f"  MaxResub = {maxresub}",
                "VIEW View"] + [f"INVARIANT {i}" for i in invs] + ["INVARIANT DumpBehaviour", "CHECK_DEADLOCK FALSE"]
         cfgp = os.path.join(gen, mod + ".cfg")
         with open(cfgp, "w") as f:
@@ -504,6 +547,9 @@ class Ctx:
             elif c["diff"]:
                 conf["event_diffs"] += 1
                 self.notes.append("model-drift: predicted and observed events differ: " + json.dumps(c["diff"])[:300])
+        nrg = sum(1 for tr in traces if any(e.get("e") == "regroup" for e in tr["ev"]))
+        if nrg:
+            self.extra["replayed_behaviours_with_regroup"] = self.extra.get("replayed_behaviours_with_regroup", 0) + nrg
         if uniq and len(self.samples) < 3:
             self.samples.append({"kind": "JadeImpl behaviour replayed into the real code", "scenario": compact_scn(scns[int(uniq[0]["scn"][1:])]),
                                  "path": uniq[0]["path"][:60]})
@@ -576,7 +622,7 @@ class Ctx:
                             "states": states, "transitions": states, "ok": True, "mode": "trace following"})
         self.judge(good, "random runs at visible-operation granularity (also validated against the monitor)")
 
-    def impl_liveness(self, name, scns, maxb=3, maxuser=4, fixed=None):
+    def impl_liveness(self, name, scns, maxb=3, maxuser=4, fixed=None, usercancel=False, resub=(), maxresub=1):
         """C05's eventual completion on JadeImpl: FairSpec (weak fairness on every process step, batch start, job exit and
         on the user's recovery) => <>complete; no state constraint, monitor frozen. Also shows that the recovery is needed
         (MaxUser = 0 must violate the property: the refused-last-node race is in the model)."""
@@ -584,22 +630,29 @@ class Ctx:
         os.makedirs(gen, exist_ok=True)
         recs = [scenario.tla_scn(s, f"s{i}") for i, s in enumerate(scns)]
         out = {}
-        for tag, mu in (("with recovery", maxuser), ("without recovery", 0)):
+        for tag, mu in (("with recovery", maxuser), ("without recovery", 0)) + ((("unfair cancel", maxuser),) if usercancel else ()):
             mod = "MC_live_" + re.sub(r"[^A-Za-z0-9]", "_", tag) + f"_{os.getpid()}"
             with open(os.path.join(gen, mod + ".tla"), "w") as f:
-                f.write(genmc.mc_module(mod, "JadeImpl", recs, "MCResubFlags == {}"))
+                f.write(genmc.mc_module(mod, "JadeImpl", recs, "MCResubFlags == {" + ", ".join(
+                    genmc.tla({"failed": "--no-failed" not in fs, "missing": "--no-missing" not in fs, "successful": "--successful" in fs})
+                    for fs in resub) + "}"))
             cfgp = os.path.join(gen, mod + ".cfg")
             with open(cfgp, "w") as f:
-                f.write("\n".join(["SPECIFICATION FairSpec", "CONSTANTS", "  Scns <- ScnSet", f"  MaxB = {maxb}", f"  MaxUser = {mu}",
-                                   "  Monitor = FALSE", "  Log = FALSE", "  FaultKinds = {}", "  MaxFaults = 0", "  UserCancels = FALSE", "  EagerUser = FALSE", "  ResubFlags <- MCResubFlags",
+                f.write("\n".join(["SPECIFICATION " + ("FairSpecCancel" if usercancel and tag != "unfair cancel" else "FairSpec"), "CONSTANTS", "  Scns <- ScnSet",
+                                   f"  MaxB = {maxb}", f"  MaxUser = {mu}",
+                                   "  Monitor = FALSE", "  Log = FALSE", "  FaultKinds = {}", "  MaxFaults = 0",
+                                   "  UserCancels = " + ("TRUE" if usercancel else "FALSE"), "  EagerUser = FALSE", "  ResubFlags <- MCResubFlags", f"  MaxResub = {maxresub}",
                                    "  Fixed = {%s}" % ", ".join(json.dumps(x) for x in sorted(fixed or FIXED)),
-                                   "PROPERTY EventuallyComplete", "CHECK_DEADLOCK FALSE"]) + "\n")
+                                   "PROPERTY EventuallyComplete"] + (["PROPERTY CancelEnds", "PROPERTY CancelMarks"] if usercancel else []) + (["PROPERTY ResubmitEnds"] if resub else [])
+                                  + ["CHECK_DEADLOCK FALSE"]) + "\n")
             res = tlc.run_tlc(mod, cfg=cfgp, workers=NCPU, cwd=gen, timeout=1500)
             for ext in (".tla", ".cfg"):
                 os.remove(os.path.join(gen, mod + ext))
             out[tag] = res
         ok = tlc.tlc_ok(out["with recovery"])
-        needs = "Temporal property EventuallyComplete was violated" in out["without recovery"]["out"]
+        def violated(o, prop):
+            return re.search(r"Temporal propert(y|ies) [^\n]*\b" + prop + r"\b[^\n]* (was|were) violated", o) is not None
+        needs = violated(out["without recovery"]["out"], "EventuallyComplete")
         self.models.append({"name": name, "module": "JadeImpl", "mode": "liveness (FairSpec => <>complete), no state constraint",
                             "scenarios": len(scns), "states": out["with recovery"]["distinct"],
                             "transitions": out["with recovery"]["states"], "wall_s": round(out["with recovery"]["wall"], 1),
@@ -608,6 +661,13 @@ class Ctx:
             raise tlc.TlcError(f"liveness model {name} did not pass:\n" + out["with recovery"]["out"][-3000:])
         if not needs:
             self.notes.append("liveness is not sensitive to the user's recovery on these scenarios (vacuity warning)")
+        if usercancel:
+            # vacuity: without fairness on the cancel-jobs process the cancellation may never end -- TLC must say so
+            sens = violated(out["unfair cancel"]["out"], "CancelEnds")
+            self.models[-1]["cancel_liveness_violated_without_fairness"] = bool(sens)
+            self.models[-1]["mode"] = "liveness (FairSpecCancel => <>complete, cancel ~> complete and quiet, role taken ~> canceled)"
+            if not sens:
+                self.notes.append("CancelEnds is not sensitive to the cancel process's fairness (vacuity warning)")
 
     def judge(self, traces, what="", ignore_other=False, module="MonTrace", encoder=None, clauses=None):
         """Validate recorded traces against the monitor; collect violations of this property's clauses."""
@@ -831,9 +891,19 @@ def protocol_suite(ctx, n_quick=400, n_thorough=4000, gen_kw=None, salt=0):
     ctx.judge(bl + run_tasks(ft), "the same with every file operation as a scheduling point")
 
 
+def aborted_round_tasks(ctx):
+    """Rounds aborted by an error raised while a batch's files are written (quota exceeded) -- after earlier batches of the
+    same round were accepted by the scheduler, before anything is persisted: what the later rounds do with that."""
+    q = ctx.tier == "quick"
+    return sweep_tasks(ctx, fault_bases(ctx.tier), ["failwrite"], ("submit-jobs", "try-submit-jobs"), fault_mode=True,
+                       seeds_per_base=1 if q else 4, detail_re=r"(config_batch_\d+\.json|_batch_\d+\.sh)$")
+
+
 def check_C01(ctx):
     ctx.model("Batching N<=3 exhaustive", "Batching", "Batching_quick.cfg")
     protocol_suite(ctx, salt=1)
+    bl, ft = aborted_round_tasks(ctx)
+    ctx.judge(bl + run_tasks(ft), "rounds aborted by a failed write of a batch file, then the other nodes' and the user's rounds")
     return ctx.finish(rule=RULE_PROTOCOL)
 
 
@@ -923,11 +993,25 @@ def check_C07(ctx):
     ctx.judge(tr2, "random job lists with 1-3 groups: real first round and dry run")
     tr3 = run_tasks([("random_hpc", (s, dict(n_min=2, n_max=6, groups_max=3))) for s in seeds(ctx, 150 if q else 1500, 8)])
     ctx.judge(tr3, "random HPC submissions with 1-3 groups")
+    # "its group's parameters" after `resubmit-jobs -s FILE`: the rerun is batched, limited and submitted with the new ones
+    tr4 = run_tasks(regroup_tasks(ctx, 120 if q else 2500))
+    ctx.extra["regrouped_resubmissions"] = sum(1 for t in tr4 if any(e.get("e") == "regroup" for e in t["ev"]))
+    ctx.judge(tr4, "completed submissions resubmitted with replaced group parameters (resubmit-jobs -s)")
+    # ... and in the protocol model: UserResubmit may pass the scenario's replacement parameters, RReset makes them the ones the
+    # batching actions read; every interleaving of both epochs, behaviours replayed into the code (with the real -s FILE)
+    ctx.impl_model("JadeImpl + resubmit-jobs -s (replaced group parameters)",
+                   [families.scn("AB", blk={"B": ["A"]}, rc={"A": 1, "B": 1}, groups=[families.G(size=1, procs=1)], maxnodes=1,
+                                 regroup=[families.G(size=2, tryadd=True, procs=2, verbose=True)]),
+                    families.scn("ABC", rc={"A": 1, "C": 1}, groups=[families.G(size=3, procs=1)], maxnodes=1,
+                                 regroup=[families.G(size=1, procs=2, qos="high")])],
+                   maxb=4, maxuser=2, max_replay=100 if q else 1500, resub=[["--failed", "--missing"]], timeout=1500)
     return ctx.finish(rule="(a) TLC enumerates all batching inputs N<=3 on Batching.tla; (b) the same input space is enumerated in "
                            "Python (quick: stratified sample; thorough: all) and executed on the real submit-jobs, the observed "
                            "batches validated by TLC against the closed form (BatchTrace.tla) and the traces against the C07 "
                            "clauses; (c) random job lists <=12 jobs with 1-3 groups and random group parameters, each run for real "
-                           "and as dry run (DryRunSame); (d) random full submissions", exhaustive=not q)
+                           "and as dry run (DryRunSame); (d) random full submissions; (e) completed submissions with failed jobs "
+                           "resubmitted with replaced group parameters (-s): the rerun's batches are judged against the new "
+                           "parameters", exhaustive=not q)
 
 
 def small_model(ctx, name, module, consts, invariants, defs="", view="View", dump=True, workers=NCPU, timeout=1500):
@@ -1031,11 +1115,16 @@ def check_C08(ctx):
     ctx.judge(run_tasks([("random_hpc", (s, kw)) for s in seeds(ctx, 150 if q else 2000, 5)]), "random HPC submissions")
     bl, ft = fine_user_round_sweep_tasks(ctx, cap=300 if q else None)
     ctx.judge(bl + run_tasks(ft), "login-node rounds held at each file operation while nodes append")
+    # the consolidated file rewritten by resubmit-jobs (rows of the rerun jobs pruned), then appended to by the next rounds
+    rt = small_resubmit_tasks(ctx, 160 if q else 3000) + [("resubmit", (s, dict(n_min=2, n_max=6, groups_max=1), 1 + (s % 2)))
+                                                          for s in seeds(ctx, 60 if q else 1000, 74)]
+    ctx.judge(run_tasks(rt), "resubmitted submissions: collection into the consolidated file rewritten by resubmit-jobs")
     return ctx.finish(rule="Results.tla: all interleavings of 2-3 appenders with 2 collectors (1-3 rounds, canceled rows) and a "
                            "reader at lock-operation granularity; the model's complete behaviours and random schedules executed "
                            "on the real ResultsAggregator in virtual processes parked at every lock operation, and random schedules "
                            "with every file operation (result files and lock files) as a scheduling point; plus rows/collected "
-                           "events of whole submissions, incl. login-node rounds held at each of their file operations")
+                           "events of whole submissions, incl. login-node rounds held at each of their file operations, and of "
+                           "resubmitted submissions (the consolidated file rewritten by resubmit-jobs, then appended to)")
 
 
 FIXED = {"F1", "F9", "F2"}      # findings repaired in the current tree (the models follow the code)
@@ -1141,8 +1230,14 @@ def check_C11(ctx):
     # kills at every boundary operation (lock operation, external command) of every submitter round
     bl1, t1 = sweep_tasks(ctx, bases, ["kill", "faillock"], subm, fault_mode=False, cap=None if not q else 700)
     # thorough: additionally at every file mutation, and a failed write (quota) at every write
-    bl2, t2 = sweep_tasks(ctx, bases[:1] if q else bases, ["kill", "failwrite"], subm, fault_mode=True, cap=500 if q else None)
-    traces = run_tasks(t1 + t2)
+    allfirst = families.scn("ABC", groups=[families.G(size=2, procs=1)], maxnodes=0)      # everything handed over by submit-jobs
+    bl2, t2 = sweep_tasks(ctx, bases[:1] if q else bases + [allfirst], ["kill", "failwrite"], subm, fault_mode=True, cap=500 if q else None)
+    # quick: t2 is a sample -- the writes of the status files (cluster_config.json, job_status.json and their version files:
+    # a round that fails between them leaves counters and job states in disagreement) are always swept completely
+    bl3, t3 = sweep_tasks(ctx, bases + [allfirst], ["failwrite"], subm, fault_mode=True,
+                          detail_re=r"(version\.txt|job_status\.json|cluster_config\.json)$") if q else ([], [])
+    traces = run_tasks(t1 + t2 + t3)
+    bl2 = bl2 + bl3
     ctx.extra["fault_runs_injected"] = sum(1 for t in traces if t.get("injected"))
     ctx.judge(bl1 + bl2 + traces, "single-fault sweep over submitter rounds (kill / lock failure / write failure), both lock policies, "
               "then recovery rounds")
@@ -1229,6 +1324,8 @@ def check_C14(ctx):
     qfam = [families.scn("AB", groups=[families.G(size=1, procs=1)], maxnodes=1)]
     ctx.impl_model("JadeImpl + cancel-jobs at any moment", qfam if q else mfam, maxb=2 if q else 3, maxuser=2 if q else 4, usercancel=True,
                    max_replay=150 if q else 3000, timeout=3000)
+    # ... and liveness: a cancellation ends the submission (complete, nothing queued or running), and marks it canceled
+    ctx.impl_liveness("JadeImpl liveness under cancel-jobs", qfam if q else mfam, maxb=2 if q else 3, maxuser=2 if q else 3, usercancel=True)
     bases = [
         families.scn("ABCD", groups=[families.G(size=1, procs=1)], maxnodes=2),
         families.scn("ABCD", blk={"B": ["A"], "D": ["C"]}, groups=[families.G(size=1, procs=1)], maxnodes=2),
@@ -1282,10 +1379,26 @@ def check_C16(ctx):
                 tasks.append(("hooks", (ctx.seed * 1000 + combo * 64 + k * 2 + int(local), combo, local,
                                         True if k % 3 == 1 else ("node" if k % 3 == 2 else False))))
     ctx.judge(run_tasks(tasks), "all 16 set/unset combinations of the four lifecycle commands, local and HPC mode, random DAGs")
+    # "once per completion" includes the completion of a canceled submission (and of its resubmission): cancel-jobs at any
+    # moment in the model with the commands as actions; on the code, cancel-jobs at every (other) step of base schedules
+    ctx.impl_model("JadeImpl with lifecycle commands + cancel-jobs at any moment",
+                   [families.scn("AB", groups=[families.G(size=1, procs=1)], maxnodes=1, hooks=allh)],
+                   maxb=2, maxuser=2, usercancel=True, max_replay=120 if q else 1500, timeout=3000)
+    cbases = [families.scn("ABC", blk={"C": ["A"]}, groups=[families.G(size=1, procs=1)], maxnodes=2, hooks=allh),
+              families.scn("ABCD", rc={"B": 1}, groups=[families.G(size=2, procs=2)], maxnodes=1, hooks=subh)]
+    cbl = run_tasks([("fault", (b, ctx.seed + 11 + i, None, False)) for i, b in enumerate(cbases)])
+    ctasks = []
+    for i, (b, btr) in enumerate(zip(cbases, cbl)):
+        for t in range(1, len(btr["moves"]) + 1, 3 if q else 1):
+            for a in ([[["try-submit-jobs", "{out}"]]] if q else [[], [["try-submit-jobs", "{out}"]]]):
+                ctasks.append(("cancel", (b, ctx.seed + 11 + i, t, a)))
+    ctx.extra["cancel_moments_with_hooks"] = len(ctasks)
+    ctx.judge(cbl + run_tasks(ctasks), "cancel-jobs at every step of submissions with lifecycle commands (teardown of a canceled completion)")
     return ctx.finish(rule="JadeImpl with the four commands as actions explored on 4 small scenarios and replayed into the code; "
                            "16 combinations of setup/teardown/node-setup/node-teardown commands x {local, HPC} x random DAGs (2-5 jobs, "
                            "passing and failing jobs, failing teardown command in a third of the runs, failing node teardown command in "
-                           "another third) x random schedules; hook "
+                           "another third) x random schedules; canceled completions (cancel-jobs at any moment in the model, at "
+                           "every step of base schedules on the code); hook "
                            "commands are served by the controller and recorded with their environment")
 
 
@@ -1350,6 +1463,19 @@ def check_C13(ctx):
                     families.scn("ABC", blk={"A": ["C"], "B": ["C"]}, flag="A", rc={"C": 2}, groups=[families.G(size=1, procs=1)], maxnodes=2)],
                    maxb=6, maxuser=3, max_replay=150 if q else 2000,
                    resub=[["--failed", "--missing"], ["--no-failed", "--missing", "--successful"], ["--failed", "--no-missing", "--successful"]])
+    # ... and a second resubmission on the again completed submission (MaxResub = 2): three epochs, every interleaving
+    ctx.impl_model("JadeImpl + two resubmissions",
+                   [families.scn("AB", blk={"B": ["A"]}, rc={"A": 1}, groups=[families.G(size=1, procs=1)], maxnodes=0)]
+                   + ([] if q else [families.scn("ABC", blk={"C": ["A"]}, flag="C", rc={"A": 1}, groups=[families.G(size=2, procs=2)], maxnodes=0)]),
+                   maxb=6, maxuser=2, max_replay=80 if q else 1500, maxresub=2, timeout=3000,
+                   resub=[["--failed", "--missing"], ["--no-failed", "--missing", "--successful"]])
+    # ... and liveness: the resubmitted part completes again (fault-free: nothing is missing, so also with --no-missing)
+    ctx.impl_liveness("JadeImpl liveness with resubmit-jobs",
+                      [families.scn("AB", blk={"B": ["A"]}, rc={"A": 1}, groups=[families.G(size=1, procs=1)], maxnodes=0),
+                       families.scn("ABC", blk={"C": ["A"]}, flag="C", rc={"A": 1}, groups=[families.G(size=2, procs=2)], maxnodes=0),
+                       families.scn("ABC", blk={"A": ["C"], "B": ["C"]}, flag="A", rc={"C": 2}, groups=[families.G(size=1, procs=1)], maxnodes=2)],
+                      maxb=6, maxuser=3, resub=[["--failed", "--missing"], ["--no-failed", "--missing", "--successful"],
+                                                ["--failed", "--no-missing", "--successful"]])
     # K2 at the protocol level: with a batch rejected at sbatch (a missing job) and `--no-missing`, TLC must find the behaviour
     # in which a rerun job is handed over without the missing blocker -- and that behaviour, replayed into the code, must be
     # the known finding (if TLC no longer finds it, the model or the finding changed)
@@ -1452,6 +1578,7 @@ def check_C20(ctx):
         tasks.append(("run_stats", (seq, False)))
         tasks.append(("run_stats", (seq, True)))
     tasks += [("run_events", (f,)) for f in funcs.event_inputs(rng, 300 if q else 4000)]
+    tasks += [("run_tables", (f,)) for f in funcs.table_inputs(rng, 200 if q else 3000)]
     obs = run_obs(tasks)
     # per-process statistics when the processes are seen in different subsets of the node's samples
     ptasks = [("run_pstats", x) for x in funcs.pstats_inputs(3 if q else 5, 3)]
@@ -1462,7 +1589,7 @@ def check_C20(ctx):
             tasks.append(t)
     judge_obs(ctx, "Reports", "Reports_obs.cfg", obs,
               {"TrueMinimum", "TrueMaximum", "TrueMean", "SampleCount", "EveryNameConsolidated", "EventsLosslessOrdered",
-               "ConsolidationIdempotent"}, "resource statistics / event consolidation", tasks=tasks)
+               "ConsolidationIdempotent", "StatTablesLossless"}, "resource statistics / event consolidation", tasks=tasks)
     # the four-way tally of results.json, on whole submissions (incl. missing and canceled jobs)
     kw = dict(n_min=2, n_max=6, groups_max=1)
     trs = run_tasks([("random_nodefaults", (s, kw)) for s in seeds(ctx, 120 if q else 1500, 91)])
@@ -1480,7 +1607,8 @@ def check_C20(ctx):
     return ctx.finish(rule="all sample sequences of length <=4 (thorough 5) over {0,1,2,3} fed to the real ResourceMonitorAggregator "
                            "(node and per-process statistics, sampler stubbed); random multisets of <=5 events over 2 names, 3 "
                            "timestamps, <=3 files written with the real StructuredLogEvent and consolidated twice with the real "
-                           "EventsSummary; results.json tallies of whole submissions; the consolidated event summary against the event "
+                           "EventsSummary; the same for resource-statistics events (cpu_stats, process_stats with 1-3 processes per sample), "
+                           "consolidated into tables and read back with get_dataframe; results.json tallies of whole submissions; the consolidated event summary against the event "
                            "logs at the end of resubmitted submissions (reports on, periodic monitoring); every observation validated by TLC against "
                            "Reports.tla / JadeMonitor.tla", exhaustive=False)
 
@@ -1642,6 +1770,30 @@ def liveness_extra(ctx):
     # the user runs try-submit-jobs at any moment, concurrently with the nodes' own rounds (not only at quiescence)
     ctx.impl_model("JadeImpl + user rounds at any moment", [families.scn("AB", groups=[families.G(size=1, procs=1)], maxnodes=0)],
                    maxb=2, maxuser=1 if q else 2, eager=True, max_replay=150 if q else 1500, timeout=3000)
+    bl, wt = completion_window_tasks(ctx)
+    ctx.judge(bl + run_tasks(wt), "try-submit-jobs started at every step of submissions that end with report generation")
+
+
+def completion_window_tasks(ctx):
+    """The completion work with report generation enabled (the role is held across summary, teardown, the report commands and
+    the flag): a try-submit-jobs from another host started at every scheduling step of the base schedule."""
+    q = ctx.tier == "quick"
+    bases = [families.scn("AB", groups=[families.G(size=1, procs=1)], maxnodes=0, reports=True),
+             families.scn("ABC", rc={"B": 1}, groups=[families.G(size=2, procs=2)], maxnodes=0, reports=True, hooks={"setup": False, "teardown": True, "nsetup": False, "nteardown": False})]
+    if not q:
+        bases.append(families.scn("ABC", blk={"C": ["A"]}, flag="C", rc={"A": 1}, groups=[families.G(size=1, procs=1)], maxnodes=2,
+                                  reports=True))
+    base_tasks = [("fault", (b, ctx.seed * 43 + i, None, False)) for i, b in enumerate(bases)]
+    baselines = run_tasks(base_tasks)
+    tasks = []
+    for (kind_, (scn, seed, _, fm)), btr in zip(base_tasks, baselines):
+        for t in range(1, len(btr["moves"]) + 1):
+            for j in ((0, 2) if q else (0, 1, 2, 3, 5)):
+                plan = [{"kind": "usertry", "t": t, "host": "user" if (t + j) % 3 else "login"},
+                        {"kind": "delay", "label": "try-submit-jobs", "b": -1, "j": j, "d": 25}]
+                tasks.append(("fault", (scn, seed, plan, False)))
+    ctx.extra["completion_window_points_enumerated"] = len(tasks)
+    return baselines, tasks
 
 
 NODE_CLAUSES = {"C02": {"StartAfterBlockers"}, "C04": {"CanceledNeverRuns", "CanceledOnlyIf", "CanceledIff", "NotCanceledRuns"},
@@ -1771,6 +1923,9 @@ def limits_extra(ctx):
             plan.append({"kind": "hold", "label": "run-jobs", "while": "resubmit-jobs"})      # the old node lingers
         tasks.append(("fault", (sc, s, plan, False)))
     ctx.judge(run_tasks(tasks), "resubmit-jobs issued the moment the submission is complete (old batches still on the scheduler)")
+    # rounds aborted after the scheduler accepted some of their batches (nothing persisted): the limit still counts them
+    bl, ft = aborted_round_tasks(ctx)
+    ctx.judge(bl + run_tasks(ft), "rounds aborted by a failed write of a batch file, then the other nodes' and the user's rounds")
 
 
 CHECKS["C06"] = make_protocol_check(16, gen_kw=dict(squeue_faults=0.4, n_min=3), extra=limits_extra)
